@@ -6,7 +6,8 @@ use vibrato::tokenizer::worker::Worker;
 use vibrato::tokenizer::Tokenizer;
 use vibrato::verif_hooks::*;
 
-const S13: Spec = Spec { sys: L_A_AB, user: None, cats: CATS_MIX, unk_mult: &[1, 1, 1], nr: 3, nl: 3 };
+/// a non-square connector: 2 right ids, 3 left ids
+const S13: Spec = Spec { sys: L_A_AB, user: None, cats: CATS_MIX, unk_mult: &[1, 1, 1], nr: 2, nl: 3 };
 
 /// Independent recount from the lattice dump: one connection-cost evaluation per (node, node
 /// ending at its start boundary), plus one per node ending at the boundary EOS connects from.
@@ -55,9 +56,12 @@ fn bump(a: &mut [usize; 3], id: u16) {
 #[cfg(kani)]
 fn counts_of(w: &Worker, lid: &mut [usize; 3], rid: &mut [usize; 3]) {
     let c = w.verif_counter().unwrap();
-    assert!(c.verif_lid_count().len() == 3 && c.verif_rid_count().len() == 3);
-    for k in 0..3 {
+    assert!(c.verif_lid_count().len() == S13.nl, "one counter per left id");
+    assert!(c.verif_rid_count().len() == S13.nr, "one counter per right id");
+    for k in 0..S13.nl {
         lid[k] = c.verif_lid_count()[k];
+    }
+    for k in 0..S13.nr {
         rid[k] = c.verif_rid_count()[k];
     }
 }
@@ -88,7 +92,7 @@ fn counts_one_sentence(text: &'static str, n: usize, ignore_space: bool) {
     core::mem::forget(tok_owned);
 }
 
-//@ c13_counts_ab {"desc":"after tokenizing \"ab\" the per-id counts equal an independent recount of connection-cost evaluations over the lattice, for all id assignments","bounds":"N=2; dictionary S13 (words {a,ab}, 3 unk entries, 3x3 matrix)","symbolic":"all ids and costs, matrix cells","functions":["Worker::init_connid_counter","Worker::update_connid_counts","Lattice::add_connid_counts","ConnIdCounter::add","ConnIdCounter::new"],"fs":2048,"unwind":7,"timeout":1200,"mem_gb":16}
+//@ c13_counts_ab {"desc":"after tokenizing \"ab\" the per-id counts equal an independent recount of connection-cost evaluations over the lattice, for all id assignments","bounds":"N=2; dictionary S13 (words {a,ab}, 3 unk entries, 2 right x 3 left ids)","symbolic":"all ids and costs, matrix cells","functions":["Worker::init_connid_counter","Worker::update_connid_counts","Lattice::add_connid_counts","ConnIdCounter::add","ConnIdCounter::new"],"fs":2048,"unwind":7,"timeout":1200,"mem_gb":16}
 #[cfg(kani)]
 #[kani::proof]
 fn c13_counts_ab() {
